@@ -287,3 +287,15 @@ def run_model(driver, casefile, timeout=1200):
         k, _, v = ln.partition(" ")
         lines[k] = v
     return rc, lines, out
+
+
+def build_simple(src, outname, flags="", extra_inc="", timeout=900):
+    """compiles one hand-written harness source against REPO; cached on sources + repo hash"""
+    key = hashlib.sha256((file_hash([src]) + repo_key() + flags + REPO + file_hash(tree_files(os.path.join(REPO, "examples")))).encode()).hexdigest()[:20]
+    d = os.path.join(BUILD, "simple")
+    os.makedirs(d, exist_ok=True)
+    binp = os.path.join(d, f"{outname}_{key}")
+    if os.path.exists(binp):
+        return True, binp, "cached"
+    rc, out, _ = sh(f"timeout {timeout} g++ -std=c++17 -w -DOKRUZ_BSPLINEBASIS_VERIF {flags} -I{REPO}/include {extra_inc} {src} -o {binp}", timeout=timeout + 30)
+    return rc == 0, (binp if rc == 0 else None), out
